@@ -48,6 +48,13 @@ func runC07(cases string, res *Result) {
 	if err := other.RegisterString("o_escape", "{% macro m(x) %}{{ x|escape }}{% endmacro %}{{ m(v) }}{{ v|escape }}"); err != nil {
 		panic(err)
 	}
+	reg("p_raw", "{{ v }}")
+	reg("ab_inc", "<i>{{ v }}</i>")
+	for i, bp := range c07ApplyBodies {
+		reg("ab_plain_"+bp[0], bp[1])
+		name := []string{"escape", "e"}[i%2]
+		reg("ab_esc_"+bp[0], "{% apply "+name+" %}"+bp[1]+"{% endapply %}")
+	}
 	all := []string{"p_e", "p_escape", "chain", "apply", "macro", "include", "cond", "chainarg", "chainarg2"}
 	few := []string{"p_e", "p_escape"}
 
@@ -155,8 +162,75 @@ func runC07(cases string, res *Result) {
 		}
 		got, err := fallback(in)
 		check("fallback", expfb, got, err)
+		// the value inside containers: the filter sees the container's text form (whatever it is: the engine's own
+		// conversion, read off an unfiltered print), and escapes all of it
+		if vk := c.str("vkind"); (vk != "" || stream == "fixed" || stream == "exhaustive1") && in != "" {
+			inner := interface{}(in)
+			if vk != "" {
+				inner = c07Value(vk, in)
+			}
+			for ci, cont := range []interface{}{
+				[]interface{}{"<a>", inner}, []interface{}{[]interface{}{inner}, 1}, map[string]interface{}{"k": inner}, []interface{}{map[string]interface{}{"<k>": []interface{}{inner, "&"}}},
+				[2]interface{}{inner, inner}, struct{ F interface{} }{inner}, &[]interface{}{inner}, []fmt.Stringer{c07StrStruct{in}}, []error{&c07Err{in}}, [][]byte{[]byte(in)},
+			} {
+				cctx := map[string]interface{}{"v": cont, "dflt": "ZZ"}
+				text, terr := eng.Render("p_raw", cctx)
+				if terr != nil {
+					continue
+				}
+				for _, p := range []string{"p_e", "p_escape", "apply", "macro", "twice_set"} {
+					res.Evaluations++
+					res.Hist["container"]++
+					got, err := eng.Render(p, cctx)
+					want := text
+					if p == "twice_set" {
+						got = refDecode(got)
+					}
+					where := fmt.Sprintf("%s on container %d (%T)", p, ci, cont)
+					switch {
+					case err != nil:
+						res.add(Finding{Kind: "oracle", Where: where, Case: c, Detail: "error: " + err.Error()})
+					case strings.ContainsAny(got, "<>\"'"):
+						res.add(Finding{Kind: "oracle", Where: where, Case: c, Expected: hx(want), Observed: hx(got), Detail: "raw special character in the escaped text of a container"})
+					case refDecode(got) != want:
+						res.add(Finding{Kind: "oracle", Where: where, Case: c, Expected: hx(want), Observed: hx(got), Detail: "decoding the escaped text of a container does not give the text the engine prints for it unescaped"})
+					}
+				}
+			}
+		}
+		// an apply block around every construct that produces text: all of it is escaped
+		if stream == "fixed" || stream == "random" || c.str("vkind") == "stringer-struct" {
+			actx := map[string]interface{}{"v": ctx["v"], "dflt": "ZZ"}
+			for _, bp := range c07ApplyBodies {
+				plain, perr := eng.Render("ab_plain_"+bp[0], actx)
+				got, err := eng.Render("ab_esc_"+bp[0], actx)
+				res.Evaluations++
+				res.Hist["apply-body:"+bp[0]]++
+				if perr != nil && err != nil {
+					continue
+				}
+				switch {
+				case (perr == nil) != (err == nil):
+					res.add(Finding{Kind: "oracle", Where: "apply escape around " + bp[0], Case: c, Detail: fmt.Sprintf("with apply: %v, without: %v", err, perr)})
+				case strings.ContainsAny(got, "<>\"'"):
+					res.add(Finding{Kind: "oracle", Where: "apply escape around " + bp[0], Case: c, Expected: hx(plain), Observed: hx(got), Detail: "raw special character in the output of {% apply escape %}"})
+				case refDecode(got) != plain:
+					res.add(Finding{Kind: "oracle", Where: "apply escape around " + bp[0], Case: c, Expected: hx(plain), Observed: hx(got), Detail: "decoding the output of {% apply escape %} does not give the body's own output"})
+				}
+			}
+		}
 	})
 	res.Exhaustive = []string{"exhaustive1", "exhaustive2"}
+}
+
+// bodies of an apply block: every construct that writes text
+var c07ApplyBodies = [][2]string{
+	{"text", "<b class=\"x\">T&C's</b>{{ v }}"}, {"verbatim", "{% verbatim %}<a href=\"{{ url }}\">'&'</a>{% endverbatim %}{{ v }}"},
+	{"if", "{% if true %}<p>{{ v }}</p>{% else %}no{% endif %}"}, {"for", "{% for i in [1, 2] %}<li>{{ v }}{{ i }}</li>{% endfor %}"},
+	{"include", "<u>{% include 'ab_inc' %}</u>"}, {"macro", "{% macro m(x) %}<m>{{ x }}</m>{% endmacro %}{{ m(v) }}{{ _self.m('&') }}"},
+	{"set", "{% set q = '<q>' ~ v ~ '</q>' %}{{ q }}"}, {"spaceless", "{% spaceless %}<a> <b>{{ v }}</b> </a>{% endspaceless %}"},
+	{"nested-apply", "{% apply upper %}<x>{{ v }}</x>{% endapply %}<y>"}, {"raw", "{{ v|raw }}<z>{{ '<lit>'|raw }}"}, {"comment", "<c>{# <hidden> #}{{ v }}</c>"},
+	{"block", "{% block bb %}<blk>{{ v }}</blk>{% endblock %}"}, {"verbatim-only", "{% verbatim %}<only>{% endverbatim %}"},
 }
 
 var c07MacroForms = []string{"{{ value|e }}", "{{value|e}}", "{{ value |e }}", "{{ value| e }}", "{{ value | e }}", "{{ value | escape }}", "{{  value  |  escape  }}", "{{ value |\te }}", "{{ value|escape }}"}
